@@ -47,10 +47,12 @@ def extract(ctx: Ctx):
 class Run:
     """Executes a construction history on the real code, judging it with the property oracle."""
 
-    def __init__(self, ctx: Optional[Ctx], bridge: bool, main: List[dict], main_aid: Optional[int]):
+    def __init__(self, ctx: Optional[Ctx], bridge: bool, main: List[dict], main_aid: Optional[int], main_early=None):
         self.ctx = ctx
-        self.h = {"bridge": bridge, "mainAid": main_aid, "main": main, "ops": []}
-        self.rig = dbrig.Rig(bridge, main, main_aid)
+        self.h = {"bridge": bridge, "mainAid": main_aid, "main": main, "mainEarly": list(main_early or []), "ops": []}
+        self.rig = dbrig.Rig(bridge, main, main_aid, main_early)
+        #: characteristics that have already published an event (construction-time or mid-history)
+        self.hot: List[Any] = list(self.rig.early_objs)
         self.results: List[dict] = []
         self.fails: List[tuple] = []  # (signature, description)
         self.ever: Dict[int, Dict[int, Any]] = {}  # id(manager) -> iid -> object it was issued to
@@ -108,11 +110,20 @@ class Run:
         k = op["op"]
         if k == "poll":
             return self.poll(op)
+        if k == "touch":
+            if op["obj"] >= len(rig.objs):
+                return {"ok": None}
+            c = rig.objs[op["obj"]]
+            if hasattr(c, "set_value") and dbrig.bump_value(c):
+                self.hot.append(c)
+            return {"ok": None}
         if k == "addAccessory":
             if not rig.is_bridge:
                 return {"err": "badTarget"}
             bridge = rig.top
             acc = rig.new_accessory(op["aid"], op["specs"], op.get("catBridge", False))
+            # value changes while the accessory is set up, before the bridge knows it (and gives it an aid)
+            early = dbrig.early_changes(acc, op.get("early") or [])
             before = list(bridge.accessories.items())
             try:
                 bridge.add_accessory(acc)
@@ -122,6 +133,7 @@ class Run:
                     self.fail("C17:rejected-add-changed-state", f"add_accessory({op['aid']}) raised but the bridge changed")
                 return {"err": "ValueError"}
             rig.number_accessory(acc)
+            self.hot += early
             aid = acc.aid
             others = [k2 for k2, a in bridge.accessories.items() if a is not acc]
             if aid in others or aid == bridge.aid or bridge.accessories.get(aid) is not acc:
@@ -249,6 +261,14 @@ class Run:
                 for e in entries
             ]
             live = self.live_objects()
+            for e in entries:
+                if rig.accessory(e.get("aid")) is None and "value" in e:
+                    self.fail(
+                        "C17:read-of-unknown-accessory-returned-value",
+                        f"no accessory is registered under aid {e.get('aid')}, yet the entry for ({e.get('aid')},{e.get('iid')}) "
+                        f"carries the value of object #{rig.num(reached[id(e)]) if id(e) in reached else '?'}",
+                    )
+                    break
             r_of = {}
             pos = 0
             for aid, iid in ids:
@@ -433,9 +453,20 @@ class Run:
             by_iid.setdefault(p[1], []).append(p)
             by_aid.setdefault(p[0], []).append(p)
         group: List[tuple] = []
+        hot_pairs = []
+        for c in self.hot:  # characteristics that published before: their listed pair goes first
+            for key, acc in self.rig.accessories():
+                if any(c is x for sv in acc.services for x in sv.characteristics):
+                    p = (acc.aid, acc.iid_manager.get_iid(c))
+                    if p in pairs and p not in hot_pairs:
+                        hot_pairs.append(p)
+        if hot_pairs:
+            group += rng.sample(hot_pairs, min(len(hot_pairs), 2))
         rich = [v for v in by_aid.values() if len(v) >= 2]
         if rich:
-            group += rng.sample(rng.choice(rich), 2)  # two characteristics of one accessory
+            for p in rng.sample(rng.choice(rich), 2):  # two characteristics of one accessory
+                if p not in group:
+                    group.append(p)
         shared = [v for v in by_iid.values() if len(v) >= 2]
         if shared:
             for p in rng.choice(shared)[:2]:  # the same iid in two accessories
@@ -444,7 +475,7 @@ class Run:
         for p in rng.sample(pairs, min(len(pairs), 3)):
             if p not in group:
                 group.append(p)
-        group = group[:5]
+        group = group[:6]
         if len(group) < 2:
             return []
         sub = lambda cl, items: {"client": cl, "sub": [[a, i, on] for (a, i), on in items]}  # noqa: E731
@@ -725,9 +756,9 @@ class ConstructionRaised(Exception):
     """pyhap raised while the top-level accessory was being built from shipped services."""
 
 
-def new_run(ctx, bridge, main, main_aid) -> "Run":
+def new_run(ctx, bridge, main, main_aid, main_early=None) -> "Run":
     try:
-        return Run(ctx, bridge, main, main_aid)
+        return Run(ctx, bridge, main, main_aid, main_early)
     except Exception as ex:  # noqa: BLE001
         if not dbrig.from_pyhap(ex):
             raise
@@ -735,7 +766,7 @@ def new_run(ctx, bridge, main, main_aid) -> "Run":
 
 
 def replay_history(h: dict, ctx: Optional[Ctx] = None):
-    run = new_run(ctx, h["bridge"], h["main"], h.get("mainAid", 1))
+    run = new_run(ctx, h["bridge"], h["main"], h.get("mainAid", 1), h.get("mainEarly"))
     try:
         if h.get("probes") is not None:
             run.h["probes"] = h["probes"]
@@ -811,6 +842,20 @@ def boundary_histories(pool) -> List[dict]:
         }
     )
     hs.append({"bridge": False, "mainAid": None, "main": [], "ops": [{"op": "addService", "aid": 1, "spec": raw([["Name", "On", "Name"]], False)}]})
+    # construction-time publishes: value changes before the bridge / driver assigns the aid
+    hs.append({"bridge": True, "main": [], "ops": [{**auto([lb]), "early": [6, 7]}, {**expl(5, [sw]), "early": [6]}, {**auto([lb, sw]), "early": [0, 7, 9]}]})
+    hs.append({"bridge": False, "mainAid": None, "mainEarly": [6, 7], "main": [lb], "ops": []})
+    hs.append({"bridge": True, "mainEarly": [9, 10], "main": [lb], "ops": [auto([sw])]})
+    # an event, then the characteristic is removed from the manager and assigned again, then events again
+    hs.append(
+        {
+            "bridge": True,
+            "main": [lb],
+            "ops": [{"op": "touch", "obj": 10}, {"op": "touch", "obj": 11}, {"op": "removeObj", "aid": 1, "obj": 10},
+                    {"op": "assign", "aid": 1, "obj": 10}, {**auto([lb]), "early": [7]}, {"op": "touch", "obj": 20},
+                    {"op": "removeIid", "aid": 2, "iid": 9}, {"op": "assign", "aid": 2, "obj": 20}],
+        }
+    )
     poll = lambda *pick: {"op": "poll", "pick": list(pick) or [0, 3, 7]}  # noqa: E731
     # reads interleaved with replacing a bridged accessory under the same aid (explicit, and the
     # automatic search handing the lowest free aid out again); identical paths are polled again
@@ -846,7 +891,8 @@ def random_history(ctx: Ctx, pool, big: bool = False):
     bridge = rng.random() < 0.8
     main = [dbrig.random_spec(rng, pool) for _ in range(rng.choice([0, 0, 1, 2]))]
     main_aid = 1 if bridge else rng.choice([1, None])
-    run = new_run(ctx, bridge, main, main_aid)
+    main_early = [rng.randrange(1000) for _ in range(rng.choice([1, 2]))] if rng.random() < 0.2 else []
+    run = new_run(ctx, bridge, main, main_aid, main_early)
     rig = run.rig
 
     def any_spec():
@@ -866,6 +912,19 @@ def random_history(ctx: Ctx, pool, big: bool = False):
         if polls and rng.random() < 0.22:
             run.apply({"op": "poll", "pick": [rng.randrange(1000) for _ in range(rng.choice([0, 2, 4]))]})
             continue
+        if rng.random() < 0.08:
+            # a value change (an event), sometimes followed by removing the characteristic from the
+            # manager and assigning it again: its later events must carry the new iid
+            key = rng.choice(keys)
+            acc = rig.accessory(key)
+            cs = [rig.num(c) for s2 in acc.services for c in s2.characteristics]
+            cs = [n for n in cs if n is not None]
+            if cs:
+                o = rng.choice(cs)
+                run.apply({"op": "touch", "obj": o})
+                if rng.random() < 0.5:
+                    pending = [{"op": "removeObj", "aid": key, "obj": o}, {"op": "assign", "aid": key, "obj": o}]
+                continue
         x = rng.random()
         if bridge and (x < (0.55 if big else 0.25)) and len(keys) < (12 if big else 7):
             y = rng.random()
@@ -877,6 +936,9 @@ def random_history(ctx: Ctx, pool, big: bool = False):
                 aid = rng.choice(keys + [1, 7])
             specs = [any_spec() for _ in range(rng.choice([0, 0, 1, 1, 2]))]
             op = {"op": "addAccessory", "aid": aid, "specs": specs}
+            if rng.random() < 0.3:
+                # value changes while the accessory is being set up, before the bridge gives it an aid
+                op["early"] = [rng.randrange(1000) for _ in range(rng.choice([1, 2, 3]))]
             if rng.random() < 0.04:
                 op["catBridge"] = True
         elif bridge and x < 0.33 and len(keys) > 1:
